@@ -9,9 +9,15 @@
      on the flushed medium returns those fields;
    5 the frame: at most one 32-byte slot of one directory block differs;
    4 write_new_directory_entry / delete_directory_entry: which slot, and nothing else.
-   No bounds on anything. *)
+   No bounds on anything.
+   Not covered here: write_new_directory_entry when NO block of the directory has a free slot
+   (the directory grows by alloc_cluster; write order of that case is in PrOrder); the frame
+   corollary for flush on FAT32 with a known free count/hint is flush_file_spec + info_step
+   (two blocks change: the information sector and the slot's block).
+   Build order: after PrModes (and PrDir, PrSeek, PrFat). *)
 From Coq Require Import NArith ZArith List Bool Lia Arith FMapPositive ZifyClasses ZifyInst Zify.
 From SdFs Require Import FsTypes FsBase FsFat FsMgr FsLemmas PrBase PrFat PrAlloc PrDir PrSeek.
+From SdFs Require PrModes.   (* qualified use only: is_read_call, ro_next_cluster *)
 Import ListNotations.
 Open Scope N_scope.
 Local Arguments N.mul : simpl never.
@@ -945,8 +951,6 @@ Proof.
 Qed.
 
 (* ================================================================== 4. create and delete *)
-From SdFs Require PrModes.
-
 (* a step that only reads: PrDir.ro_step plus "the device log grew by read calls only" *)
 Definition rd_step (s s' : st) : Prop :=
   ro_step s s' /\ exists l, s_trace s' = l ++ s_trace s /\ Forall PrModes.is_read_call l.
@@ -1126,3 +1130,551 @@ Section StopWalk.
       inversion Hbl; subst bl. apply walk_dir_chain_stop; assumption.
   Qed.
 End StopWalk.
+
+(* ---- the tables and limits of the manager, without the clock (a create reads the clock) ---- *)
+Definition same_tables (s s' : st) : Prop :=
+  s_vols s' = s_vols s /\ s_dirs s' = s_dirs s /\ s_files s' = s_files s /\
+  s_next_id s' = s_next_id s /\ s_lock s' = s_lock s /\
+  s_maxv s' = s_maxv s /\ s_maxd s' = s_maxd s /\ s_maxf s' = s_maxf s /\ s_faults s' = s_faults s.
+
+Lemma same_mgr_tables s s' : same_mgr s s' -> same_tables s s' /\ s_clock s' = s_clock s.
+Proof.
+  intros (A1 & A2 & A3 & A4 & A5 & A6 & A7 & A8 & A9 & A10). unfold same_tables. repeat split; assumption.
+Qed.
+
+Lemma same_tables_trans a b c : same_tables a b -> same_tables b c -> same_tables a c.
+Proof.
+  intros (A1 & A2 & A3 & A4 & A5 & A6 & A7 & A8 & A9) (B1 & B2 & B3 & B4 & B5 & B6 & B7 & B8 & B9).
+  unfold same_tables. repeat split; congruence.
+Qed.
+
+Lemma In_slots_of d bl t : In t (slots_of d bl) ->
+  exists b i, In b bl /\ i < 16 /\ t = (b, i * 32, slot (disk_get d b) i).
+Proof.
+  intros H. unfold slots_of in H. apply in_flat_map in H. destruct H as (b & Hb & H).
+  unfold block_slots in H. apply In_tslots_from in H. destruct H as (j & _ & Hj & ->).
+  exists b, j. split; [exact Hb|]. split; [change (N.of_nat 16) with 16 in Hj; lia|reflexivity].
+Qed.
+
+Lemma get_timestamp_eq s :
+  get_timestamp s = (Ok (clock_ts (s_clock s)), set_s_clock s (s_clock s + 1)).
+Proof. reflexivity. Qed.
+
+(* ---- write_new_directory_entry ---- *)
+(* "not valid": first byte 0x00 (end marker) or 0xE5 (deleted) *)
+Definition nv (t : tslot) : bool := negb (t_is_valid t).
+
+Lemma free_slot_find n b blk : forall i,
+  option_map (pair blk) (free_slot n b i) =
+  option_map (fun t : tslot => (fst (fst t), snd (fst t) / 32)) (find nv (tslots_from n b blk i)).
+Proof.
+  induction n as [|n IH]; intros i; cbn [free_slot tslots_from find]; [reflexivity|].
+  unfold nv at 1, t_is_valid. cbn [snd]. destruct (is_valid (slot b i)); cbn [negb].
+  - apply IH.
+  - cbn [option_map fst snd]. rewrite N.div_mul by lia. reflexivity.
+Qed.
+
+Definition free_in (d : disk) (blk : N) : option N := free_slot 16 (disk_get d blk) 0.
+
+(* the walk stops at the first slot, in on-disk order over the directory's blocks, that is not valid *)
+Lemma stop_at_free d bl :
+  stop_at N free_in d bl =
+  option_map (fun t : tslot => (fst (fst t), snd (fst t) / 32)) (find nv (slots_of d bl)).
+Proof.
+  induction bl as [|a bl IH]; [reflexivity|].
+  unfold stop_at. cbn [first_some]. rewrite slots_of_cons, find_app_first.
+  unfold free_in at 1. rewrite (free_slot_find 16 (disk_get d a) a 0). fold (block_slots d a).
+  destruct (find nv (block_slots d a)); [reflexivity|exact IH].
+Qed.
+
+Definition create_body (fat32 : bool) (name : list N) (attr fc : N) (blk : N) : M (option dirent) :=
+  b <- cache_read blk ;;
+  match free_slot 16 b 0 with
+  | Some i =>
+      ctime <- get_timestamp ;;
+      let e := mk_dirent name ctime ctime attr fc 0 blk (i * 32) in
+      bytes <- serialize fat32 e ;;
+      cache_modify (fun b => set_bytes b (i * 32) bytes) ;;;
+      write_back ;;; ret (Some e)
+  | None => ret None
+  end.
+
+Definition create_post (fat32 : bool) (name : list N) (attr fc : N)
+           (blk i : N) (s0 : st) (r : dirent) (s' : st) : Prop :=
+  let e := mk_dirent name (clock_ts (s_clock s0)) (clock_ts (s_clock s0)) attr fc 0 blk (i * 32) in
+  let new := put_entry fat32 e (disk_get (s_disk s0) blk) in
+  r = e /\ s_disk s' = disk_set (s_disk s0) blk new /\
+  cache_ok s' /\ no_faults s' /\ s_clock s' = s_clock s0 + 1 /\ same_tables s0 s' /\
+  exists l, s_trace s' = DWrite blk new :: l ++ s_trace s0 /\ Forall PrModes.is_read_call l.
+
+Lemma create_body_none fat32 name attr fc blk s :
+  no_faults s -> cache_ok s -> free_in (s_disk s) blk = None ->
+  exists s', create_body fat32 name attr fc blk s = (Ok None, s') /\ rd_step s s'.
+Proof.
+  intros Hnf Hc Hg. destruct (cache_read_rd blk s Hnf Hc) as (s1 & Hr & Hrd & _).
+  exists s1. split; [|exact Hrd]. unfold create_body. rewrite (bind_ok _ _ _ _ _ Hr).
+  unfold free_in in Hg. rewrite Hg. reflexivity.
+Qed.
+
+Lemma create_body_some fat32 name attr fc blk s i :
+  no_faults s -> cache_ok s -> free_in (s_disk s) blk = Some i ->
+  exists r s', create_body fat32 name attr fc blk s = (Ok (Some r), s') /\
+               create_post fat32 name attr fc blk i s r s'.
+Proof.
+  intros Hnf Hc Hg. destruct (cache_read_rd blk s Hnf Hc) as (s1 & Hr & Hrd & Ht & Hcc).
+  destruct Hrd as ((Hd1 & Hc1 & Hnf1 & Hm1) & l & Htr & Hl).
+  destruct (same_mgr_tables _ _ Hm1) as [Htab Hclk].
+  unfold create_body. rewrite (bind_ok _ _ _ _ _ Hr). unfold free_in in Hg. rewrite Hg.
+  rewrite (bind_ok _ _ _ _ _ (get_timestamp_eq s1)). cbv zeta. rewrite Hclk.
+  set (e := mk_dirent name (clock_ts (s_clock s)) (clock_ts (s_clock s)) attr fc 0 blk (i * 32)).
+  set (s2 := set_s_clock s1 (s_clock s + 1)).
+  assert (Hts : ts_ok (clock_ts (s_clock s))) by apply ts_cal_ok, clock_ts_cal.
+  rewrite (bind_ok _ _ _ _ _ (serialize_ok fat32 e s2 Hts Hts)).
+  set (s3 := set_s_cache s2 (set_bytes (s_cache s2) (i * 32) (ser_bytes fat32 e))).
+  assert (Hcm : cache_modify (fun b => set_bytes b (i * 32) (ser_bytes fat32 e)) s2 = (Ok tt, s3)) by reflexivity.
+  rewrite (bind_ok _ _ _ _ _ Hcm).
+  assert (Ht3 : s_tag s3 = Some blk) by exact Ht.
+  assert (Hnf3 : no_faults s3) by (apply (no_faults_step s1); [reflexivity|cbn; lia|exact Hnf1]).
+  rewrite (bind_ok _ _ _ _ _ (write_back_ok blk s3 Ht3 Hnf3)).
+  eexists _, _. split; [reflexivity|].
+  assert (Ecache : s_cache s3 = put_entry fat32 e (disk_get (s_disk s) blk)).
+  { subst s3 s2. cbn [s_cache set_s_cache set_s_clock]. rewrite Hcc. reflexivity. }
+  unfold create_post. fold e. cbv zeta. rewrite <- Ecache.
+  split; [reflexivity|].
+  split; [subst s3 s2; cbn; rewrite Hd1; reflexivity|].
+  split.
+  { intros j Hj. cbn in Hj. rewrite Ht in Hj. injection Hj as <-. cbn.
+    rewrite disk_get_set_same. reflexivity. }
+  split.
+  { intros n Hin. cbn in Hin. specialize (Hnf1 n Hin). cbn. lia. }
+  split; [reflexivity|].
+  split.
+  { destruct Htab as (A1 & A2 & A3 & A4 & A5 & A6 & A7 & A8 & A9).
+    unfold same_tables. cbn. repeat split; assumption. }
+  exists l. split; [cbn; rewrite Htr; reflexivity|exact Hl].
+Qed.
+
+Lemma write_new_is vi dc name attr fc :
+  write_new_directory_entry vi dc name attr fc =
+  (v <- get_vol vi ;;
+   r <- walk_dir (walk_fuel v) vi (dir_first_cluster v dc) true (create_body (v_fat32 v) name attr fc) ;;
+   match r with Some e => ret e | None => fail NotEnoughSpace end).
+Proof. reflexivity. Qed.
+
+(* C02/C04, create: the new entry goes into the FIRST slot, in walk order over the directory's
+   blocks, whose first byte is 0x00 or 0xE5; its 32 bytes are the serialization of
+   (name, clock, clock, attr, first cluster, size 0); every other slot of every directory block
+   and every other block of the device is unchanged; one device write, the last call.
+   (Directory with a free slot: the directory does not grow.) *)
+Theorem write_new_directory_entry_spec vi v dc name attr fc s bl blk off sl0 :
+  nth_error (s_vols s) vi = Some v -> vol_ok v -> no_faults s -> cache_ok s ->
+  dir_blocks (s_disk s) v dc = Some bl ->
+  find nv (slots_of (s_disk s) bl) = Some (blk, off, sl0) ->
+  length name = 11%nat -> length (disk_get (s_disk s) blk) = 512%nat ->
+  let e := mk_dirent name (clock_ts (s_clock s)) (clock_ts (s_clock s)) attr fc 0 blk off in
+  let bytes := ser_bytes (v_fat32 v) e in
+  exists s', write_new_directory_entry vi dc name attr fc s = (Ok e, s') /\
+    s_disk s' = disk_set (s_disk s) blk (set_bytes (disk_get (s_disk s) blk) off bytes) /\
+    slot_write (s_disk s) (s_disk s') blk (off / 32) bytes /\
+    (forall bl', slots_of (s_disk s') bl' = map (upd_slot blk off bytes) (slots_of (s_disk s) bl')) /\
+    (forall x, x < off \/ off + 32 <= x ->
+       get8 (disk_get (s_disk s') blk) x = get8 (disk_get (s_disk s) blk) x) /\
+    cache_ok s' /\ no_faults s' /\ s_clock s' = s_clock s + 1 /\ same_tables s s' /\
+    exists l, s_trace s' = DWrite blk (disk_get (s_disk s') blk) :: l ++ s_trace s /\
+              Forall PrModes.is_read_call l.
+Proof.
+  intros Hvi Hv Hnf Hc Hbl Hfind Hname Hlen e bytes.
+  pose proof (find_some _ _ Hfind) as [Hin _].
+  apply In_slots_of in Hin. destruct Hin as (b & i & Hb & Hi & Et).
+  injection Et as Eb Eo Es. subst b.
+  pose proof (walk_dir_stop dirent N free_in (create_body (v_fat32 v) name attr fc)
+                (create_post (v_fat32 v) name attr fc)
+                (create_body_none (v_fat32 v) name attr fc)
+                (fun blk0 s0 x => create_body_some (v_fat32 v) name attr fc blk0 s0 x)
+                vi v dc true s bl Hvi Hv Hnf Hc Hbl) as Hw.
+  rewrite stop_at_free, Hfind in Hw. cbn [option_map fst snd] in Hw.
+  destruct Hw as (s0 & r & s' & Erun & Hrd & HQ).
+  destruct Hrd as ((Hd0 & _ & _ & Hm0) & l0 & Htr0 & Hl0).
+  destruct (same_mgr_tables _ _ Hm0) as [Htab0 Hclk0].
+  unfold create_post in HQ. cbv zeta in HQ. rewrite Hclk0, Hd0 in HQ.
+  replace (off / 32 * 32) with off in HQ by lia. fold e in HQ.
+  destruct HQ as (Er & Hd' & Hc' & Hnf' & Hclk' & Htab' & l & Htr & Hl).
+  exists s'. split.
+  { rewrite write_new_is. rewrite (bind_ok _ _ _ _ _ (get_vol_some vi v s Hvi)).
+    rewrite (bind_ok _ _ _ _ _ Erun). rewrite Er. reflexivity. }
+  assert (Hoff : e_offset e + 32 <= 512) by (cbn [e_offset e]; lia).
+  destruct (put_entry_slots (v_fat32 v) e (disk_get (s_disk s) blk) Hlen Hname Hoff
+              ltac:(cbn [e_offset e]; lia)) as (_ & Hslot & Hoth & Hbytes & _).
+  unfold put_entry in *. cbn [e_offset e] in *. fold bytes in Hd', Hslot, Hoth, Hbytes, Htr.
+  assert (Hnew : disk_get (s_disk s') blk = set_bytes (disk_get (s_disk s) blk) off bytes)
+    by (rewrite Hd'; apply disk_get_set_same).
+  assert (Hsw : slot_write (s_disk s) (s_disk s') blk (off / 32) bytes).
+  { split; [intros j Hj; rewrite Hd'; apply disk_get_set_other; congruence|].
+    rewrite Hnew. split; [exact Hslot|exact Hoth]. }
+  split; [exact Hd'|]. split; [exact Hsw|].
+  split.
+  { intros bl'. rewrite (slots_of_upd _ _ _ _ _ bl' Hsw).
+    replace (off / 32 * 32) with off by lia. reflexivity. }
+  split; [rewrite Hnew; exact Hbytes|].
+  split; [exact Hc'|]. split; [exact Hnf'|]. split; [exact Hclk'|].
+  split; [exact (same_tables_trans _ _ _ Htab0 Htab')|].
+  exists (l ++ l0). split; [rewrite Hnew, Htr, Htr0, app_assoc; reflexivity|apply Forall_app; auto].
+Qed.
+
+(* when the slot taken was the end marker, the slot after it is not written: it stays what it
+   was (0x00 when the directory was well formed) *)
+Corollary create_keeps_following_slots d d' blk i bytes k :
+  slot_write d d' blk i bytes -> k <> i -> slot (disk_get d' blk) k = slot (disk_get d blk) k.
+Proof. intros (_ & _ & H) Hk. apply H. exact Hk. Qed.
+
+(* ---- delete_directory_entry ---- *)
+Definition del_in (name : list N) (d : disk) (blk : N) : option N :=
+  delete_in_slots 16 (disk_get d blk) 0 name.
+
+Lemma delete_in_slots_find n b blk name : forall i,
+  option_map (pair blk) (delete_in_slots n b i name) =
+  option_map (fun t : tslot => (fst (fst t), snd (fst t)))
+             (find (t_matches name) (before_end_all (tslots_from n b blk i))).
+Proof.
+  induction n as [|n IH]; intros i; cbn [delete_in_slots tslots_from before_end_all]; [reflexivity|].
+  change (t_is_end (blk, i * 32, slot b i)) with (is_end (slot b i)).
+  destruct (is_end (slot b i)); [reflexivity|]. cbn [find].
+  change (t_matches name (blk, i * 32, slot b i)) with (matches (slot b i) name).
+  destruct (matches (slot b i) name); [reflexivity|apply IH].
+Qed.
+
+Lemma stop_at_del name d bl :
+  stop_at N (del_in name) d bl =
+  option_map (fun t : tslot => (fst (fst t), snd (fst t))) (find (t_matches name) (live_in_blocks d bl)).
+Proof.
+  induction bl as [|a bl IH]; [reflexivity|].
+  unfold stop_at. cbn [first_some live_in_blocks flat_map]. rewrite find_app_first.
+  unfold del_in at 1. rewrite (delete_in_slots_find 16 (disk_get d a) a name 0). fold (block_slots d a).
+  destruct (find (t_matches name) (before_end_all (block_slots d a))); [reflexivity|exact IH].
+Qed.
+
+Definition delete_body (name : list N) (blk : N) : M (option unit) :=
+  b <- cache_read blk ;;
+  match delete_in_slots 16 b 0 name with
+  | Some start => cache_modify (fun b => set_bytes b start [229]) ;;; write_back ;;; ret (Some tt)
+  | None => ret None
+  end.
+
+Definition delete_post (blk start : N) (s0 : st) (r : unit) (s' : st) : Prop :=
+  let new := set_bytes (disk_get (s_disk s0) blk) start [229] in
+  s_disk s' = disk_set (s_disk s0) blk new /\ cache_ok s' /\ no_faults s' /\ same_mgr s0 s' /\
+  exists l, s_trace s' = DWrite blk new :: l ++ s_trace s0 /\ Forall PrModes.is_read_call l.
+
+Lemma delete_body_none name blk s :
+  no_faults s -> cache_ok s -> del_in name (s_disk s) blk = None ->
+  exists s', delete_body name blk s = (Ok None, s') /\ rd_step s s'.
+Proof.
+  intros Hnf Hc Hg. destruct (cache_read_rd blk s Hnf Hc) as (s1 & Hr & Hrd & _).
+  exists s1. split; [|exact Hrd]. unfold delete_body. rewrite (bind_ok _ _ _ _ _ Hr).
+  unfold del_in in Hg. rewrite Hg. reflexivity.
+Qed.
+
+Lemma delete_body_some name blk s start :
+  no_faults s -> cache_ok s -> del_in name (s_disk s) blk = Some start ->
+  exists r s', delete_body name blk s = (Ok (Some r), s') /\ delete_post blk start s r s'.
+Proof.
+  intros Hnf Hc Hg. destruct (cache_read_rd blk s Hnf Hc) as (s1 & Hr & Hrd & Ht & Hcc).
+  destruct Hrd as ((Hd1 & Hc1 & Hnf1 & Hm1) & l & Htr & Hl).
+  unfold delete_body. rewrite (bind_ok _ _ _ _ _ Hr). unfold del_in in Hg. rewrite Hg.
+  set (s3 := set_s_cache s1 (set_bytes (s_cache s1) start [229])).
+  assert (Hcm : cache_modify (fun b => set_bytes b start [229]) s1 = (Ok tt, s3)) by reflexivity.
+  rewrite (bind_ok _ _ _ _ _ Hcm).
+  assert (Ht3 : s_tag s3 = Some blk) by exact Ht.
+  assert (Hnf3 : no_faults s3) by (apply (no_faults_step s1); [reflexivity|cbn; lia|exact Hnf1]).
+  rewrite (bind_ok _ _ _ _ _ (write_back_ok blk s3 Ht3 Hnf3)).
+  exists tt. eexists. split; [reflexivity|].
+  assert (Ecache : s_cache s3 = set_bytes (disk_get (s_disk s) blk) start [229])
+    by (subst s3; cbn [s_cache set_s_cache]; rewrite Hcc; reflexivity).
+  unfold delete_post. cbv zeta. rewrite <- Ecache.
+  split; [subst s3; cbn; rewrite Hd1; reflexivity|].
+  split.
+  { intros j Hj. cbn in Hj. rewrite Ht in Hj. injection Hj as <-. cbn.
+    rewrite disk_get_set_same. reflexivity. }
+  split.
+  { intros n Hin. cbn in Hin. specialize (Hnf1 n Hin). cbn. lia. }
+  split.
+  { destruct Hm1 as (A1 & A2 & A3 & A4 & A5 & A6 & A7 & A8 & A9 & A10). unfold same_mgr. cbn.
+    repeat split; assumption. }
+  exists l. split; [cbn; rewrite Htr; reflexivity|exact Hl].
+Qed.
+
+Lemma delete_is vi dc name :
+  delete_directory_entry vi dc name =
+  (v <- get_vol vi ;;
+   r <- walk_dir (walk_fuel v) vi (dir_first_cluster v dc) false (delete_body name) ;;
+   match r with Some _ => ret tt | None => fail NotFound end).
+Proof. reflexivity. Qed.
+
+(* marking the first byte of a slot *)
+Lemma slot_set_first b i x : (N.to_nat (i * 32) + 32 <= length b)%nat ->
+  slot (set_bytes b (i * 32) [x]) i = set_bytes (slot b i) 0 [x].
+Proof.
+  intros H.
+  assert (L1 : length (slot (set_bytes b (i * 32) [x]) i) = 32%nat)
+    by (apply slot_length; rewrite set_bytes_length; cbn [length]; lia).
+  assert (L0 : length (slot b i) = 32%nat) by (apply slot_length; exact H).
+  assert (L2 : length (set_bytes (slot b i) 0 [x]) = 32%nat)
+    by (rewrite set_bytes_length; [exact L0|rewrite L0; cbn; lia]).
+  apply (nth_ext _ _ 0 0); [congruence|]. intros n Hn. rewrite L1 in Hn.
+  rewrite nth_slot by exact Hn.
+  unfold set_bytes at 2. change (N.to_nat 0) with 0%nat. cbn [firstn app length Nat.add].
+  destruct n as [|m].
+  - change (N.of_nat 0) with 0. cbn [nth].
+    pose proof (get8_set_bytes_inside b (i * 32) [x] 0 ltac:(cbn [length]; lia) ltac:(cbn; lia)) as E.
+    exact E.
+  - cbn [nth]. rewrite nth_skipn_add.
+    rewrite get8_set_bytes_outside by (cbn [length]; lia).
+    symmetry. apply nth_slot. lia.
+Qed.
+
+(* C02/C04, delete: the first slot - among the slots before their block's end marker, in
+   on-disk order - whose 11 name bytes match gets first byte 0xE5; no other byte of the device
+   changes; one device write, the last call.  No such slot: NotFound, and only read calls. *)
+Theorem delete_directory_entry_spec vi v dc name s bl :
+  nth_error (s_vols s) vi = Some v -> vol_ok v -> no_faults s -> cache_ok s ->
+  dir_blocks (s_disk s) v dc = Some bl ->
+  match find (t_matches name) (live_in_blocks (s_disk s) bl) with
+  | Some (blk, off, sl0) =>
+      length (disk_get (s_disk s) blk) = 512%nat ->
+      let old := disk_get (s_disk s) blk in
+      exists s', delete_directory_entry vi dc name s = (Ok tt, s') /\
+        s_disk s' = disk_set (s_disk s) blk (set_bytes old off [229]) /\
+        (forall j, j <> blk -> disk_get (s_disk s') j = disk_get (s_disk s) j) /\
+        get8 (disk_get (s_disk s') blk) off = 229 /\
+        (forall x, x <> off -> get8 (disk_get (s_disk s') blk) x = get8 old x) /\
+        slot_write (s_disk s) (s_disk s') blk (off / 32) (set_bytes sl0 0 [229]) /\
+        is_valid (slot (disk_get (s_disk s') blk) (off / 32)) = false /\
+        cache_ok s' /\ no_faults s' /\ same_mgr s s' /\
+        exists l, s_trace s' = DWrite blk (disk_get (s_disk s') blk) :: l ++ s_trace s /\
+                  Forall PrModes.is_read_call l
+  | None =>
+      exists s', delete_directory_entry vi dc name s = (Err NotFound, s') /\ rd_step s s'
+  end.
+Proof.
+  intros Hvi Hv Hnf Hc Hbl.
+  pose proof (walk_dir_stop unit N (del_in name) (delete_body name) delete_post
+                (delete_body_none name) (delete_body_some name)
+                vi v dc false s bl Hvi Hv Hnf Hc Hbl) as Hw.
+  rewrite stop_at_del in Hw.
+  destruct (find (t_matches name) (live_in_blocks (s_disk s) bl)) as [[[blk off] sl0]|] eqn:Hfind.
+  - cbn [option_map fst snd] in Hw. intros Hlen old.
+    pose proof (find_some _ _ Hfind) as [Hin _].
+    apply In_live in Hin. destruct Hin as (b & i & Hb & Hi & Et & _).
+    injection Et as Eb Eo Es. subst b.
+    destruct Hw as (s0 & r & s' & Erun & Hrd & HQ).
+    destruct Hrd as ((Hd0 & _ & _ & Hm0) & l0 & Htr0 & Hl0).
+    unfold delete_post in HQ. cbv zeta in HQ. rewrite Hd0 in HQ. fold old in HQ.
+    destruct HQ as (Hd' & Hc' & Hnf' & Hm' & l & Htr & Hl).
+    assert (Hnew : disk_get (s_disk s') blk = set_bytes old off [229])
+      by (rewrite Hd'; apply disk_get_set_same).
+    assert (Hfit : (N.to_nat off + length [229] <= length old)%nat) by (subst old; cbn [length]; lia).
+    exists s'. split.
+    { rewrite delete_is. rewrite (bind_ok _ _ _ _ _ (get_vol_some vi v s Hvi)).
+      rewrite (bind_ok _ _ _ _ _ Erun). reflexivity. }
+    split; [exact Hd'|].
+    assert (Hfr : forall j, j <> blk -> disk_get (s_disk s') j = disk_get (s_disk s) j)
+      by (intros j Hj; rewrite Hd'; apply disk_get_set_other; congruence).
+    split; [exact Hfr|].
+    split.
+    { rewrite Hnew.
+      pose proof (get8_set_bytes_inside old off [229] 0 Hfit ltac:(cbn; lia)) as E.
+      change (N.of_nat 0) with 0 in E. rewrite N.add_0_r in E. exact E. }
+    split.
+    { intros x Hx. rewrite Hnew. apply get8_set_bytes_outside; [exact Hfit|]. cbn [length]. lia. }
+    assert (Ei : off / 32 = i) by lia.
+    assert (Hslot : slot (disk_get (s_disk s') blk) i = set_bytes sl0 0 [229]).
+    { rewrite Hnew, Eo, Es. apply slot_set_first. subst old. lia. }
+    split.
+    { rewrite Ei. split; [exact Hfr|]. split; [exact Hslot|].
+      intros k Hk. rewrite Hnew. apply slot_set_bytes_other; [exact Hfit|]. cbn [length]. lia. }
+    split.
+    { rewrite Ei. apply deleted_not_valid. rewrite get8_slot by lia.
+      rewrite N.add_0_r, <- Eo, Hnew.
+      pose proof (get8_set_bytes_inside old off [229] 0 Hfit ltac:(cbn; lia)) as E.
+      change (N.of_nat 0) with 0 in E. rewrite N.add_0_r in E. exact E. }
+    split; [exact Hc'|]. split; [exact Hnf'|]. split; [exact (same_mgr_trans _ _ _ Hm0 Hm')|].
+    exists (l ++ l0). split; [rewrite Hnew, Htr, Htr0, app_assoc; reflexivity|apply Forall_app; auto].
+  - cbn [option_map] in Hw. destruct (Hw eq_refl) as (s' & Erun & Hrd).
+    exists s'. split; [|exact Hrd].
+    rewrite delete_is. rewrite (bind_ok _ _ _ _ _ (get_vol_some vi v s Hvi)).
+    rewrite (bind_ok _ _ _ _ _ Erun). reflexivity.
+Qed.
+
+(* ---- 5 again: the frame for create and delete, in one sentence each ---- *)
+Corollary C02_untouched_frame_create vi v dc name attr fc s bl blk off sl0 :
+  nth_error (s_vols s) vi = Some v -> vol_ok v -> no_faults s -> cache_ok s ->
+  dir_blocks (s_disk s) v dc = Some bl ->
+  find nv (slots_of (s_disk s) bl) = Some (blk, off, sl0) ->
+  length name = 11%nat -> length (disk_get (s_disk s) blk) = 512%nat ->
+  exists e s' new, write_new_directory_entry vi dc name attr fc s = (Ok e, s') /\
+    slot_write (s_disk s) (s_disk s') blk (off / 32) new.
+Proof.
+  intros Hvi Hv Hnf Hc Hbl Hfind Hname Hlen.
+  destruct (write_new_directory_entry_spec vi v dc name attr fc s bl blk off sl0
+              Hvi Hv Hnf Hc Hbl Hfind Hname Hlen) as (s' & Hrun & _ & Hsw & _).
+  eexists _, s', _. split; [exact Hrun|exact Hsw].
+Qed.
+
+Corollary C02_untouched_frame_delete vi v dc name s bl blk off sl0 :
+  nth_error (s_vols s) vi = Some v -> vol_ok v -> no_faults s -> cache_ok s ->
+  dir_blocks (s_disk s) v dc = Some bl ->
+  find (t_matches name) (live_in_blocks (s_disk s) bl) = Some (blk, off, sl0) ->
+  length (disk_get (s_disk s) blk) = 512%nat ->
+  exists s', delete_directory_entry vi dc name s = (Ok tt, s') /\
+    slot_write (s_disk s) (s_disk s') blk (off / 32) (set_bytes sl0 0 [229]) /\
+    (forall x, x <> off -> get8 (disk_get (s_disk s') blk) x = get8 (disk_get (s_disk s) blk) x).
+Proof.
+  intros Hvi Hv Hnf Hc Hbl Hfind Hlen.
+  pose proof (delete_directory_entry_spec vi v dc name s bl Hvi Hv Hnf Hc Hbl) as H.
+  rewrite Hfind in H. destruct (H Hlen) as (s' & Hrun & _ & _ & _ & Hb & Hsw & _).
+  exists s'. split; [exact Hrun|]. split; [exact Hsw|exact Hb].
+Qed.
+
+(* ---- close_file = flush_file, then the handle is dropped: the device is as after the flush ---- *)
+Theorem close_file_after_flush s h fi f s' :
+  resolves s h fi f -> flush_file h s = (Ok tt, s') -> same_mgr s s' ->
+  close_file h s = (Ok tt, set_s_files s' (swap_remove (s_files s') fi)).
+Proof.
+  intros (Hl & Hf & _) Hrun (_ & _ & Hfiles & _ & _ & Hlock & _).
+  unfold close_file. rewrite (bind_ok _ _ _ _ _ (try_ok _ _ _ _ Hrun)).
+  rewrite <- Hfiles in Hf.
+  unfold locked, get_file_by_id, bind, get, modify, ret. rewrite Hlock, Hl, Hf. reflexivity.
+Qed.
+
+(* ================================================================== the hypotheses are satisfiable *)
+(* PrDir's example volume: FAT16, directory in clusters 2 -> 3 (blocks 30..33), one entry "A" in
+   slot 0 of block 30 whose creation date word on the medium is 0x0000.  A dirty handle on that
+   file whose in-memory creation time is the decoded value of those raw words. *)
+Definition exe_entry : dirent := mk_dirent exd_name (clock_ts 3) (ts_from_fat 0 0) 32 5 3 30 0.
+Definition exe_file : fileinfo := mk_fileinfo 7 0 0 5 0 ReadWriteAppend exe_entry true.
+Definition exe_state : st := set_s_files exd_state [exe_file].
+
+Lemma exd_not_fat j : 12 <= j -> ~ fat_area exd_vol j.
+Proof.
+  intros Hj (c & Hc & E). unfold fat_w in E. cbn [exd_vol v_clusters v_lba v_fat_start v_fat32] in *. lia.
+Qed.
+
+Example flush_example :
+  no_faults exe_state /\ cache_ok exe_state /\ vol_ok exd_vol /\
+  resolves exe_state 7 0 exe_file /\ f_dirty exe_file = true /\ file_vol exe_state exe_file 0 exd_vol /\
+  info_step exe_state 0 exd_vol exe_state /\
+  (e_size exe_entry = 0 \/ e_cluster exe_entry <> 0) /\
+  ts_ok (e_ctime exe_entry) /\ ts_ok (e_mtime exe_entry) /\ length (e_name exe_entry) = 11%nat /\
+  dir_blocks (s_disk exe_state) exd_vol 2 = Some [30; 31; 32; 33] /\
+  (exists sl0, find (t_matches (e_name exe_entry)) (live_in_blocks (s_disk exe_state) [30; 31; 32; 33])
+               = Some (e_block exe_entry, e_offset exe_entry, sl0)) /\
+  length (disk_get (s_disk exe_state) (e_block exe_entry)) = 512%nat /\
+  ~ fat_area exd_vol (e_block exe_entry) /\
+  (v_fat32 exd_vol = true -> ~ fat_area exd_vol (v_info exd_vol) /\ ~ In (v_info exd_vol) [30; 31; 32; 33]).
+Proof.
+  assert (Hnf : no_faults exe_state) by (intros n H; destruct H).
+  assert (Hc : cache_ok exe_state) by (intros i H; discriminate H).
+  split; [exact Hnf|]. split; [exact Hc|]. split; [apply dir_example|].
+  split; [repeat split; reflexivity|]. split; [reflexivity|]. split; [split; reflexivity|].
+  split; [apply info_step_none; [exact Hnf|exact Hc|reflexivity|left; reflexivity]|].
+  split; [right; discriminate|].
+  split; [apply ts_from_fat_ok|]. split; [apply ts_cal_ok, clock_ts_cal|].
+  split; [reflexivity|]. split; [vm_compute; reflexivity|].
+  split; [eexists; vm_compute; reflexivity|].
+  split; [vm_compute; reflexivity|].
+  split; [apply exd_not_fat; vm_compute; discriminate|]. intros H; discriminate H.
+Qed.
+
+(* and the model runs there.  Finding D24 on the model: the in-memory creation time is exactly
+   what get_entry decodes from the slot (raw date word 0x0000), yet after the flush the date word
+   on the medium is 0x0021 - the creation time of a file changed although nobody set it.
+   Everything else is as C02_flush_then_lookup says: size 3 and cluster 5 are found again. *)
+Example C02_zero_cdate_refuted_flush :
+  e_ctime (get_entry false (slot (disk_get (s_disk exe_state) 30) 0) 30 0) = e_ctime exe_entry /\
+  match flush_file 7 exe_state with
+  | (Ok tt, s') =>
+      le16 (disk_get (s_disk exe_state) 30) 16 = 0 /\ le16 (disk_get (s_disk s') 30) 16 = 33 /\
+      le32 (disk_get (s_disk s') 30) 28 = 3 /\ le16 (disk_get (s_disk s') 30) 26 = 5 /\
+      length (s_trace s') = 2%nat /\
+      fst (find_directory_entry 0 2 exd_name s') = Ok (entry_readback false exe_entry 30 0) /\
+      slot (disk_get (s_disk s') 30) 1 = slot (disk_get (s_disk exe_state) 30) 1
+  | _ => False
+  end.
+Proof. split; [vm_compute; reflexivity|]. vm_compute. repeat split; reflexivity. Qed.
+
+Definition exe_new_name : list N := 66 :: repeat 32 10.
+
+Example create_example :
+  (exists sl0, find nv (slots_of (s_disk exd_state) [30; 31; 32; 33]) = Some (30, 32, sl0)) /\
+  length exe_new_name = 11%nat /\ length (disk_get (s_disk exd_state) 30) = 512%nat /\
+  match write_new_directory_entry 0 2 exe_new_name 32 0 exd_state with
+  | (Ok e, s') =>
+      e_block e = 30 /\ e_offset e = 32 /\ e_ctime e = clock_ts 0 /\
+      slot (disk_get (s_disk s') 30) 0 = slot (disk_get (s_disk exd_state) 30) 0 /\
+      slot (disk_get (s_disk s') 30) 2 = repeat 0 32 /\
+      fst (find_directory_entry 0 2 exe_new_name s') = Ok (entry_readback false e 30 32) /\
+      fst (find_directory_entry 0 2 exd_name s') = fst (find_directory_entry 0 2 exd_name exd_state)
+  | _ => False
+  end.
+Proof.
+  split; [eexists; vm_compute; reflexivity|]. split; [reflexivity|]. split; [vm_compute; reflexivity|].
+  vm_compute. repeat split; reflexivity.
+Qed.
+
+Example delete_example :
+  (exists sl0, find (t_matches exd_name) (live_in_blocks (s_disk exd_state) [30; 31; 32; 33]) = Some (30, 0, sl0)) /\
+  match delete_directory_entry 0 2 exd_name exd_state with
+  | (Ok tt, s') =>
+      get8 (disk_get (s_disk s') 30) 0 = 229 /\ get8 (disk_get (s_disk s') 30) 1 = 32 /\
+      fst (find_directory_entry 0 2 exd_name s') = Err NotFound /\
+      fst (delete_directory_entry 0 2 exd_name s') = Err NotFound
+  | _ => False
+  end.
+Proof. split; [eexists; vm_compute; reflexivity|]. vm_compute. repeat split; reflexivity. Qed.
+
+(* a calendar-range timestamp and an entry for the codec theorems *)
+Example codec_example :
+  ts_cal (clock_ts 1234567) /\ length (e_name exe_entry) = 11%nat /\
+  Forall (fun x => x < 256) (e_name exe_entry) /\ e_attr exe_entry < 256 /\
+  serialize false exe_entry exe_state = (Ok (ser_bytes false exe_entry), exe_state) /\
+  length (ser_bytes true exe_entry) = 32%nat /\
+  e_size (get_entry true (ser_bytes true exe_entry) 30 0) = 3 /\
+  get_entry true (ser_bytes true (set_e_attr (set_e_cluster exe_entry 0) 16)) 30 0
+    = set_e_cluster (entry_readback true (set_e_attr exe_entry 16) 30 0) CL_ROOT.
+Proof.
+  split; [apply clock_ts_cal|]. split; [reflexivity|].
+  split; [vm_compute; repeat constructor|]. split; [reflexivity|].
+  split; [apply serialize_ok; [apply ts_from_fat_ok|apply ts_cal_ok, clock_ts_cal]|].
+  split; [reflexivity|]. split; vm_compute; reflexivity.
+Qed.
+
+(* ================================================================== assumptions *)
+Print Assumptions ts_to_fat_ok.
+Print Assumptions ts_readback_value.
+Print Assumptions C02_ts_roundtrip.
+Print Assumptions C02_clock_ts_roundtrip.
+Print Assumptions C02_ctime_stable_step.
+Print Assumptions C02_zero_cdate_refuted.
+Print Assumptions serialize_ok.
+Print Assumptions ser_bytes_layout.
+Print Assumptions C02_codec_roundtrip.
+Print Assumptions C02_codec_roundtrip_fields.
+Print Assumptions write_entry_to_disk_spec.
+Print Assumptions put_entry_slots.
+Print Assumptions flush_file_clean.
+Print Assumptions flush_file_spec.
+Print Assumptions flush_file_spec_plain.
+Print Assumptions info_step_fat32.
+Print Assumptions slots_of_upd.
+Print Assumptions live_upd.
+Print Assumptions C02_flush_then_lookup.
+Print Assumptions C02_flush_ctime_bytes.
+Print Assumptions C02_untouched_frame_step.
+Print Assumptions C02_untouched_frame_flush.
+Print Assumptions walk_dir_stop.
+Print Assumptions write_new_directory_entry_spec.
+Print Assumptions delete_directory_entry_spec.
+Print Assumptions C02_untouched_frame_create.
+Print Assumptions C02_untouched_frame_delete.
+Print Assumptions close_file_after_flush.
+Print Assumptions C02_zero_cdate_refuted_flush.
